@@ -220,6 +220,12 @@ func checkSortAndCycle(g map[string][]string) []Violation {
 			if pos[d] >= pos[t] {
 				vs = append(vs, Violation{Property: "C15", Rule: "task-order-topological", Norm: "task-listed-before-dependency",
 					Msg: fmt.Sprintf("graph {%s}: task %s is listed before its dependency %s: %v", graphString(g), t, d, first)})
+				// The same order is what the runner feeds to the upstream graph builder, whose cycle detector is only
+				// free of false positives when every stage is added after its dependencies (adding an edge ABOVE an
+				// existing diamond is reported as a cycle). Acceptance of EVERY acyclic graph cannot be enumerated; it
+				// rests on this order being topological, so a non-topological order is reported under C02 as well.
+				vs = append(vs, Violation{Property: "C02", Rule: "dag-accepted", Norm: "stages-fed-out-of-dependency-order",
+					Msg: fmt.Sprintf("graph {%s}: the runner feeds task %s to the graph builder before its dependency %s (order %v); the builder's cycle detector then rejects acyclic graphs that have a diamond below %s", graphString(g), t, d, first, t)})
 			}
 		}
 	}
